@@ -16,9 +16,10 @@ use apollo_compiler::Name;
 use std::sync::Arc;
 
 /// Alphabet of the exhaustive name stage: letters of both cases, `_`, digits, an ASCII
-/// punctuation character, a space, a non-ASCII *letter* (so `is_alphanumeric` vs
-/// `is_ascii_alphanumeric` matters), `$` and NUL.
-pub const NAME_ALPHABET: [char; 10] = ['a', 'Z', '_', '0', '9', '-', ' ', 'é', '$', '\u{0}'];
+/// punctuation character, a space, two non-ASCII *letters* (so `is_alphanumeric` vs
+/// `is_ascii_alphanumeric` matters: `é` is C3 A9, `ª` is C2 AA — every byte of `ª` is also a Latin-1
+/// letter, which matters because apollo validates names bytewise), `$` and NUL.
+pub const NAME_ALPHABET: [char; 11] = ['a', 'Z', '_', '0', '9', '-', ' ', 'é', 'ª', '$', '\u{0}'];
 /// Alphabet of the exhaustive numeric-literal stage.
 pub const NUM_ALPHABET: [char; 10] = ['0', '1', '9', '-', '+', '.', 'e', 'E', 'a', ' '];
 
@@ -43,7 +44,7 @@ pub fn prop() -> Prop {
     Prop::new(
         "C10",
         "Names, numbers and type references are well-formed",
-        "Enumerated stages (complete): every string of length <= 5 (thorough 6) over {a Z _ 0 9 - SPACE é $ NUL} through \
+        "Enumerated stages (complete): every string of length <= 5 (thorough 6) over {a Z _ 0 9 - SPACE é ª $ NUL} through \
          every Name constructor/deserializer; every string of length <= 5 (6) over {0 1 9 - + . e E a SPACE} through \
          IntValue/FloatValue deserialization; a fixed list of boundary i32 and f64 values (all powers of two and ten, \
          their neighbours, subnormals, extremes); every type shape to nesting 6 over 4 names. Random stages: arbitrary \
@@ -55,7 +56,7 @@ pub fn prop() -> Prop {
          starts with a digit; a literal candidate containing '.', 'e' or 'E'; a float with |decimal exponent| > 20 or \
          subnormal; a type with at least one list wrapper. Distinct by rendered case.",
     )
-    .enumerated("names-exhaustive", check_name_index, |t| count_strings(10, name_len(t)))
+    .enumerated("names-exhaustive", check_name_index, |t| count_strings(NAME_ALPHABET.len() as u64, name_len(t)))
     .enumerated("numeric-literals-exhaustive", check_numlit_index, |t| count_strings(10, num_len(t)))
     .enumerated("boundary-values", check_boundary_index, |_| boundary_total())
     .enumerated("type-shapes", check_shape_index, |_| count_types(SHAPE_NAMES.len() as u64, 6))
